@@ -307,6 +307,24 @@ pub fn gen_stepenv_script(id: usize, rng: &mut Sm, n_calls: usize) -> GenOut {
                     calls.push(call("get_orders", json!([]), json!({}), json!({"v": orders_json(env.get_orderbook())})));
                 }
             }
+        } else if r < 48 && pending + 2 <= step_size.min(14) && rng.chance(0.12) {
+            // an instruction for the id the NEXT order will get, queued before that order is submitted in the same step
+            // (the core queues instructions without looking at the id; the order exists by the time the step runs)
+            let oid = n_orders;
+            if rng.chance(0.5) {
+                env.cancel_order(oid);
+                calls.push(call("cancel_order", json!([oid]), json!({}), json!({"v": null})));
+            } else {
+                let nv = Some(rng.range(1, 100) as u32);
+                env.modify_order(oid, None, nv);
+                calls.push(modify_call(rng, oid, None, nv));
+            }
+            let bid = rng.chance(0.5);
+            let vol = rng.range(1, 90) as u32;
+            let p = band.price(rng);
+            let got = env.place_order(side_of(bid), vol, 7, Some(p)).unwrap();
+            calls.push(call("place_order", json!([bid, vol, 7]), json!({"price": p}), json!({"v": got})));
+            pending += 2;
         } else if r < 48 && n_orders > 0 && pending < step_size.min(14) {
             let oid = rng.below(n_orders as u64) as usize;
             env.cancel_order(oid);
@@ -452,6 +470,7 @@ pub struct LayoutStats {
     pub reads_between_submission_and_step: usize,
     pub repeated_reads_within_a_step: usize,
     pub tiny_step_scripts: usize,
+    pub coarse_grid_scripts: usize,
     pub quiet_steps: usize,
     pub steps_that_traded: usize,
     pub states: usize,
@@ -461,7 +480,10 @@ pub struct LayoutStats {
 
 /// C19: scripts whose calls return arrays / dictionaries / tuples of arrays.
 pub fn gen_layout_script(id: usize, rng: &mut Sm, numpy_env: bool, st: &mut LayoutStats) -> Value {
-    let tick = rng.range(1, 10) as u32;
+    // one script in thirty on a coarse grid: a tick so large that the whole price range holds about as many grid prices as
+    // the ten levels the arrays publish (9 * tick still fits into the price type)
+    let coarse = rng.chance(0.033);
+    let tick = if coarse { rng.range((1u64 << 32) / 13, (u32::MAX as u64) / 9) as u32 } else { rng.range(1, 10) as u32 };
     let t0 = rng.below(1000);
     // one script in sixteen runs with a degenerate step size (0, 1 or 2 time units per step) and at most step_size + 1
     // instructions per step, so that the clock still never moves backwards
@@ -476,16 +498,24 @@ pub fn gen_layout_script(id: usize, rng: &mut Sm, numpy_env: bool, st: &mut Layo
     let mut xr = Xoroshiro128StarStar::seed_from_u64(seed);
     // a tenth of the scripts live at the very bottom of the price range: bids reach price 0, so that the level walk
     // below the touch runs out of prices
-    let bottom = rng.chance(0.1);
+    let bottom = !coarse && rng.chance(0.1);
     if bottom {
         st.bottom_of_range_scripts += 1;
     }
     // ... and a tenth at the very top (prices above 2^31, asks up to the largest grid price)
-    let top = !bottom && rng.chance(0.11);
+    let top = !bottom && !coarse && rng.chance(0.11);
     if top {
         st.top_of_range_scripts += 1;
     }
-    let center = if bottom { rng.range(1, 11) } else if top { (u32::MAX as u64 - 1) / tick as u64 - rng.range(12, 40) } else { rng.range(50, 3000) };
+    // half of the top-of-range scripts whose tick divides 2^32-1 keep an ask resting at exactly 2^32-1 (the value that also
+    // stands for "no ask"), a few ticks above the other asks, so that it shows up at one of the deeper published levels
+    let max_ask = top && (u32::MAX % tick == 0) && rng.chance(0.5);
+    let top_k = u32::MAX as u64 / tick as u64;
+    let coarse_max_k = (u32::MAX as u64 - 1) / tick as u64;
+    if coarse {
+        st.coarse_grid_scripts += 1;
+    }
+    let center = if coarse { rng.range(1, coarse_max_k - 1) } else if bottom { rng.range(1, 11) } else if max_ask { top_k - rng.range(3, 9) } else if top { (u32::MAX as u64 - 1) / tick as u64 - rng.range(12, 40) } else { rng.range(50, 3000) };
     let mut calls: Vec<Value> = Vec::new();
     let n_steps = rng.range(2, 12);
     let mut reenable = false;
@@ -521,12 +551,12 @@ pub fn gen_layout_script(id: usize, rng: &mut Sm, numpy_env: bool, st: &mut Layo
             let lo_off = if rng.chance(0.15) { 0 } else { 1 };
             // ladders populate every level 1..12 on both sides, so the deepest published levels are non-empty
             let off = if ladder { 1 + (if bid { k } else { k - nb }) as u64 } else { rng.range(lo_off, 12) };
-            let off = if bid { off.min(center) } else { off };
+            let off = if bid { off.min(center) } else if max_ask { off.min(top_k - center) } else if coarse { off.min(coarse_max_k - center) } else { off };
             let p = if bid { center - off } else { center + off } * tick as u64;
             sides.push(bid);
             vols.push(rng.range(1, if bid { 40 } else { 90 }) as u32);
             traders.push(rng.below(50) as u32);
-            prices.push(if tick > 1 && rng.chance(0.03) { p as u32 + 1 } else { p as u32 });
+            prices.push(if tick > 1 && rng.chance(0.03) { (p as u32).checked_add(1).unwrap_or_else(|| p as u32 - 1) } else { p as u32 });
         }
         // cancels of active orders
         let act: Vec<usize> = env.get_orders().iter().filter(|o| o.status == bourse_book::types::Status::Active).map(|o| o.order_id).collect();
@@ -798,7 +828,7 @@ pub fn write_scripts(seed: u64, n: usize, path: &str) -> i32 {
     let scratch = std::env::var("BVMON_SCRATCH").unwrap_or_else(|_| "/tmp".into());
     std::fs::create_dir_all(&scratch).ok();
     let mut scripts = Vec::new();
-    let mut st = LayoutStats { bottom_of_range_scripts: 0, top_of_range_scripts: 0, reads_before_first_step: 0, reads_between_submission_and_step: 0, repeated_reads_within_a_step: 0, tiny_step_scripts: 0, quiet_steps: 0, steps_that_traded: 0, states: 0, asym_states: 0, keys: Vec::new() };
+    let mut st = LayoutStats { bottom_of_range_scripts: 0, top_of_range_scripts: 0, reads_before_first_step: 0, reads_between_submission_and_step: 0, repeated_reads_within_a_step: 0, tiny_step_scripts: 0, coarse_grid_scripts: 0, quiet_steps: 0, steps_that_traded: 0, states: 0, asym_states: 0, keys: Vec::new() };
     for i in 0..n {
         match i % 4 {
             0 => scripts.push(gen_orderbook_script(i, &mut rng, 60, &scratch).script),
@@ -933,7 +963,7 @@ pub fn c19(ctx: &Ctx) -> i32 {
     let n_scripts = ctx.tier.pick(2000, 25_000);
     let mut rng = Sm::derive(ctx.seed, 0xC19);
     let mut scripts = Vec::new();
-    let mut st = LayoutStats { bottom_of_range_scripts: 0, top_of_range_scripts: 0, reads_before_first_step: 0, reads_between_submission_and_step: 0, repeated_reads_within_a_step: 0, tiny_step_scripts: 0, quiet_steps: 0, steps_that_traded: 0, states: 0, asym_states: 0, keys: Vec::new() };
+    let mut st = LayoutStats { bottom_of_range_scripts: 0, top_of_range_scripts: 0, reads_before_first_step: 0, reads_between_submission_and_step: 0, repeated_reads_within_a_step: 0, tiny_step_scripts: 0, coarse_grid_scripts: 0, quiet_steps: 0, steps_that_traded: 0, states: 0, asym_states: 0, keys: Vec::new() };
     for i in 0..n_scripts {
         scripts.push(gen_layout_script(i, &mut rng, i % 2 == 1, &mut st));
     }
@@ -1008,6 +1038,7 @@ pub fn c19(ctx: &Ctx) -> i32 {
         "self_oracle_checks": r["self_oracle_checks"],
         "repeated_reads_within_a_step": st.repeated_reads_within_a_step,
         "scripts_with_step_size_0_1_or_2": st.tiny_step_scripts,
+        "coarse_grid_scripts": st.coarse_grid_scripts,
         "returned_values_overwritten_by_the_caller": r["returns_overwritten_by_caller"],
         "scripts_whose_state_left_the_rust_twin": r["twin_divergences"],
         "doc_tables": r["doc"],
